@@ -37,7 +37,7 @@ def required_cells(tier):
               "PL/normal-scaled", "PL/normal-negated", "PL/three-point-form", "PL/two-vector-form", "S/swapped",
               "S/point-vector-form", "H/direction-scaled", "H/two-point-form", "PG/rotated", "PG/reflected", "PG/duplicates",
               "PG/shuffled", "PH/face-order", "PH/face-orientation", "any/numeric-type", "any/move-and-back", "any/used-then-moved-into-place", "any/negative-zero",
-              "any/other-of-(receiver,returned)-moved-on"):
+              "any/other-of-(receiver,returned)-moved-on", "any/built-from-points-with-a-past"):
         req["variant:" + v] = 15 if q else 300
     req["foreign-type"] = 100
     req["near-miss:coordinate -1 vs -2"] = 50
@@ -126,7 +126,11 @@ def _variant(G, d, r):
                 return "any/other-of-(receiver,returned)-moved-on", o
             return "any/used-then-moved-into-place", C.lift_via_history(d, dict(h, alias=False), r)
         return "any/used-then-moved-into-place", C.lift_via_history(d, h, r)
-    if ch < 0.24 and k != "VEC":
+    if ch < 0.21 and k not in ("VEC", "P"):
+        # built from Points that were used before: to build other objects that were moved away, or hashed elsewhere and
+        # given their coordinates by item assignment
+        return "any/built-from-points-with-a-past", lift(d, r, past=True)
+    if ch < 0.26 and k != "VEC":
         o = lift(d, None)
         v = tuple(F(r.randint(-6, 6), r.choice((1, 2, 4))) for _ in range(3))
         o.move(_V(G, v))
@@ -249,6 +253,11 @@ def _nearmiss(d, r):
         return ("PL", d[1], nn)
     if k == "PG":
         # move the whole polygon, scale it about a vertex, or pull ONE vertex inwards: still valid convex polygons
+        if r.random() < 0.2:
+            # the polygon of the edge midpoints: same number of vertices, same vertex centroid, strictly inside
+            vs = list(d[1])
+            m = len(vs)
+            return ("PG", tuple(K.mul(K.add(vs[i], vs[(i + 1) % m]), F(1, 2)) for i in range(m)))
         if r.random() < 0.35:
             vs = list(d[1])
             m = len(vs)
@@ -261,6 +270,11 @@ def _nearmiss(d, r):
         c = d[1][0]
         return ("PG", tuple(K.add(c, K.mul(K.sub(v, c), F(1, 2))) for v in d[1]))
     if k == "PH":
+        if r.random() < 0.15:
+            # shrunk by half about the vertex centroid: same combinatorics, same centre, strictly inside
+            c = K.centroid(d[1])
+            h = gen._scale_about(d, c, F(1, 2))
+            return h if gen.ok_coords(h, 64, 40) else None
         if r.random() < 0.35:
             vs = list(d[1])
             i = r.randrange(len(vs))
@@ -320,7 +334,10 @@ def judge(case):
     if k != "VEC":
         same, why = same_set(lower(B), d)
         if not same:
-            raise AssertionError("harness built a non-equivalent variant %s: %s" % (lab, why))
+            # (on the pinned tree this never happens in 10^6 variants: the variant constructions themselves are sound)
+            mu.fail("%s:%s:object-built-from-exact-data-is-another-set" % (k, lab), "a %s built from exact data of the set (%s) reads back as another set: %s" % (
+                gen.NAMES.get(k, k), lab, why))
+            return mu.result(outcome=lab)
     res, exc, imp = M.call(lambda a, b: (a == a, a == b, b == a, a != b, hash(a) == hash(b), len({a, b})), A, B)
     key = "%s:%s" % (k, lab)
     if exc is not None:
